@@ -22,6 +22,9 @@ def histories(rng, tier):
             r = rng.random()
             if rng.random() < 0.04:
                 h += gen.roundtrip_lines(rng, c.name)                # continue on the map as read back from a file
+            if rng.random() < 0.1:
+                for ln in gen.scattered_range_lines(rng, c):       # shuffled, interleaved allocation, then one long range
+                    h += [ln, 'state %s' % c.name]
             if r < 0.1:
                 h.append(gen.bad_upd_line(rng, c))
             elif r < 0.3:
